@@ -2,7 +2,7 @@
    that can be read off the modules: every module has no unwind data, or DWARF CFI (any presentation) all of whose
    rows compress into a cacheable rule. (Uncovered addresses, unbuildable indexes and lookups that find nothing are
    answered by a rule or a state-independent error anyway.) *)
-From FH Require Import Consts Word X86 DwarfRow Cfi Unwinder X86Dwarf DwarfCb X86Unw WordFacts HistFacts StaticFacts ModFacts TruncFacts TruncWalk.
+From FH Require Import Consts Word X86 A64 DwarfRow Cfi Unwinder X86Dwarf A64Dwarf DwarfCb X86Unw A64Unw WordFacts HistFacts StaticFacts ModFacts TruncFacts TruncWalk.
 From Coq Require Import Lia ZifyBool ZifyN List.
 Import ListNotations.
 Open Scope N_scope.
@@ -119,4 +119,23 @@ Proof.
   unfold module_rule_based_x86 in H. unfold cb_static_x86. destruct (mdat md) as [|p sec|pe|d]; try contradiction.
   - discriminate.
   - apply dwarf_static_not_dyn. exact H.
+Qed.
+
+(* aarch64: modules without data, PE images (not supported on this architecture: a state-independent error), or
+   DWARF CFI all of whose rows compress *)
+Definition module_rule_based_a64 (md : amodule) : Prop :=
+  match mdat md with
+  | AMNone | AMPe => True
+  | AMDwarf p sec => forall f, In f sec -> fde_compresses arule translate_a64 f
+  | AMMacho _ => False
+  end.
+
+Theorem all_static_a64 (u : aunwinder) :
+  (forall md, In md (mods _ u) -> module_rule_based_a64 md) -> all_static arule amdata cb_static_a64 u.
+Proof.
+  intros H x first md rel Hf. pose proof (find_module_in amdata _ _ _ _ Hf) as Hin. specialize (H md Hin).
+  unfold module_rule_based_a64 in H. unfold cb_static_a64. destruct (mdat md) as [|p sec| |d]; try contradiction.
+  - discriminate.
+  - apply dwarf_static_not_dyn. exact H.
+  - discriminate.
 Qed.
